@@ -977,6 +977,8 @@ def c14(res):
     # little would make a result depend on an earlier call of ANOTHER model): each must be the model's pure function
     pg = [p_pred.pred_game(rng, n=rng.choice([2, 3, 3]), maxsize=2) for _ in range(size(res, 250, 1200))]
     for kind in KINDS:
+        for _ in range(4):
+            pg.append(p_pred.pred_game(rng, kind=kind, stratum="hash-collide"))     # values told apart by ==, never by hash()
         # the same squad (one list object) entered in several slots: the numbers depend on the values, not on object identity
         for n in (3, 4, 5):
             g = p_pred.pred_game(rng, kind=kind, stratum="identical", n=n, maxsize=3)
